@@ -248,12 +248,27 @@ type vc09Elem struct {
 	Addr  netip.Addr
 }
 
-func (e vc09Elem) hasAddr() bool { return e.Shape == "addr" || e.Shape == "addr-extra" }
+func (e vc09Elem) hasAddr() bool {
+	return e.Shape == "addr" || e.Shape == "addr-extra" || e.Shape == "addr-mapped"
+}
+
+// listed is the address the record puts into the allowlist: for the
+// IPv4-mapped shape the mapped form itself (a /128 that no plain IPv4 client
+// matches), as the unchanged code does.
+func (e vc09Elem) listed() netip.Addr {
+	if e.Shape == "addr-mapped" {
+		return netip.AddrFrom16(e.Addr.As16())
+	}
+
+	return e.Addr
+}
 
 func (e vc09Elem) json() string {
 	switch e.Shape {
 	case "addr":
 		return fmt.Sprintf(`{"Address":%q}`, e.Addr)
+	case "addr-mapped":
+		return fmt.Sprintf(`{"Address":"::ffff:%s"}`, e.Addr)
 	case "addr-extra":
 		return fmt.Sprintf(`{"Node":"n1","ServiceID":7,"Meta":{"a":[1,2]},"Address":%q}`, e.Addr)
 	case "missing":
@@ -287,8 +302,8 @@ func vc09ElemsJSON(es []vc09Elem) string {
 // nothing.
 func vc09ElemsAddrs(es []vc09Elem) (addrs []netip.Addr) {
 	for _, e := range es {
-		if e.hasAddr() && !slices.Contains(addrs, e.Addr) {
-			addrs = append(addrs, e.Addr)
+		if e.hasAddr() && !slices.Contains(addrs, e.listed()) {
+			addrs = append(addrs, e.listed())
 		}
 	}
 
@@ -337,7 +352,7 @@ func TestVerifC09ConfigPlumbing(t *testing.T) {
 		"v4-and-v6-intervals-differ", "v6-verdict-depends-on-v6-interval", "v4-verdict-depends-on-v4-interval",
 		"v6-verdict-depends-on-v6-count", "v4-verdict-depends-on-v4-count", "v6-verdict-depends-on-v6-key-len", "v4-verdict-depends-on-v4-key-len",
 		"verdict-depends-on-period-vs-duration", "verdict-depends-on-backoff-count-vs-ipv4-count", "verdict-depends-on-response-size-estimate",
-		"verdict-depends-on-allowlist", "verdict-depends-on-dynamic-allowlist", "static-allowlist-after-successful-refresh", "static-allowlist-after-two-refreshes", "verdict-depends-on-static-allowlist", "verdict-depends-on-last-refresh-replacing-the-previous", "dynamic-allowlist-kept-after-failed-refresh", "missing-address-at-index-that-held-one-before", "list-shrunk", "refresh-failed-keeps-previous", "dynamic-allowlist-from-consul", "dynamic-allowlist-from-backend", "any-refusal-configured-and-any-query", "allowlisted-v4", "allowlisted-v6")
+		"verdict-depends-on-allowlist", "verdict-depends-on-dynamic-allowlist", "static-allowlist-after-successful-refresh", "static-allowlist-after-two-refreshes", "verdict-depends-on-static-allowlist", "verdict-depends-on-last-refresh-replacing-the-previous", "dynamic-allowlist-kept-after-failed-refresh", "missing-address-at-index-that-held-one-before", "list-shrunk", "refresh-failed-keeps-previous", "ipv4-mapped-record-in-later-response-with-membership-change", "dynamic-allowlist-from-consul", "dynamic-allowlist-from-backend", "any-refusal-configured-and-any-query", "allowlisted-v4", "allowlisted-v6")
 	st.Finish(t)
 
 	// A loopback stand-in for the Consul service that feeds the dynamic part of
@@ -490,7 +505,7 @@ func TestVerifC09ConfigPlumbing(t *testing.T) {
 			t.Fatalf("initGRPCMetrics: %v", err)
 		}
 
-		var dynNow, stale []netip.Addr
+		var dynNow, stale, plainOfMapped []netip.Addr
 		var refreshes []string
 		nSuccess, failedKept := 0, false
 		refreshClasses := map[string]bool{}
@@ -518,7 +533,19 @@ func TestVerifC09ConfigPlumbing(t *testing.T) {
 			// last successful one index by index, so that records keep, change
 			// or lose their address in place, and the list shrinks and grows.
 			cands := []netip.Addr{dyn4, dyn6, dynB4, dynB6, vc09CFlip(dyn4, 31), vc09CFlip(dyn6, 127)}
+			// Records in IPv4-mapped form appear from the second answer on, both
+			// for addresses that also occur in plain form and for one that never
+			// does.
+			mappedOK := false
+			mappedCands := []netip.Addr{dyn4, dynB4, netip.MustParseAddr("203.0.113.99")}
 			drawAddr := func() vc09Elem {
+				if mappedOK && rapid.IntRange(0, 2).Draw(t, "mappedRecord") == 0 {
+					e := vc09Elem{Shape: "addr-mapped", Addr: rapid.SampledFrom(mappedCands).Draw(t, "mappedCand")}
+					plainOfMapped = append(plainOfMapped, e.Addr)
+
+					return e
+				}
+
 				return vc09Elem{Shape: rapid.SampledFrom([]string{"addr", "addr", "addr-extra"}).Draw(t, "shape"), Addr: rapid.SampledFrom(cands).Draw(t, "cand")}
 			}
 			drawNoAddr := func() vc09Elem {
@@ -548,6 +575,7 @@ func TestVerifC09ConfigPlumbing(t *testing.T) {
 			dynNow, nSuccess = vc09ElemsAddrs(last), 1
 			refreshes = append(refreshes, fmt.Sprintf("initial refresh: %s -> dynamic allowlist %v", vc09ElemsJSON(last), dynNow))
 
+			mappedOK = true
 			for r, n := 1, rapid.IntRange(2, 5).Draw(t, "refreshes"); r < n; r++ {
 				next := make([]vc09Elem, 0, len(last)+2)
 				for _, e := range last {
@@ -612,6 +640,25 @@ func TestVerifC09ConfigPlumbing(t *testing.T) {
 
 				if len(next) < len(last) {
 					refreshClasses["list-shrunk"] = true
+				}
+
+				plain := func(as []netip.Addr) (out []string) {
+					for _, a := range as {
+						if !a.Is4In6() {
+							out = append(out, a.String())
+						}
+					}
+
+					sort.Strings(out)
+
+					return out
+				}
+				if slices.ContainsFunc(next, func(e vc09Elem) bool { return e.Shape == "addr-mapped" }) {
+					refreshClasses["ipv4-mapped-record-in-later-response"] = true
+					if !slices.Equal(plain(cur), plain(dynNow)) {
+						// The same answer adds or removes an ordinary client.
+						refreshClasses["ipv4-mapped-record-in-later-response-with-membership-change"] = true
+					}
 				}
 
 				if len(next) > len(last) {
@@ -858,7 +905,9 @@ func TestVerifC09ConfigPlumbing(t *testing.T) {
 
 		// Every address that was ever delivered, or could have been, is probed:
 		// it is exempt exactly if the last successful answer lists it.
-		for _, a := range append(append([]netip.Addr(nil), stale...), dynNow...) {
+		// The plain form of an address that was delivered in IPv4-mapped form is
+		// a different client.
+		for _, a := range append(append(append([]netip.Addr(nil), stale...), dynNow...), plainOfMapped...) {
 			query(a, dns.TypeA, 0)
 		}
 
